@@ -721,6 +721,9 @@ class Folder:
             if cn == "re.compile" and node.args:
                 v = F(node.args[0])
                 if isinstance(v, str):
+                    fl = node.args[1] if len(node.args) > 1 else kwarg(node, "flags")
+                    if fl is not None:
+                        return ("re.compile", v, " ".join(ast.unparse(fl).split()))
                     return ("re.compile", v)
                 return UNKNOWN
             return UNKNOWN
